@@ -503,12 +503,9 @@ class _FuncEval:
                     scan(y.body, nested)
                     scan(y.orelse, nested)
                 elif isinstance(y, ast.Try):
-                    if y.finalbody:
+                    # S_some moves to where the return is: inside a try it would run under the helper's handlers
+                    if any(isinstance(z, ast.Return) for z in ast.walk(y)):
                         raise ValueError
-                    scan(y.body, nested)
-                    scan(y.orelse, nested)
-                    for h in y.handlers:
-                        scan(h.body, nested)
         try:
             scan(loop.body, False)
         except ValueError:
@@ -700,6 +697,8 @@ class _FuncEval:
         for n in ast.walk(f.node):
             if isinstance(n, ast.Name) and isinstance(n.ctx, (ast.Store, ast.Del)):
                 locals_.add(n.id)
+        if self._captures(f, locals_):
+            return None
         self.ev._expand_counter = getattr(self.ev, "_expand_counter", 0) + 1
         suffix = f"__{f.name.strip('_')}{self.ev._expand_counter}"
 
@@ -738,7 +737,7 @@ class _FuncEval:
             if d is not None:
                 defaults[p_.arg] = d
         out: list = []
-        for p_ in params:
+        for p_ in list(given) + [q_ for q_ in params if q_ not in given]:  # Python's evaluation order of the arguments
             v = given.get(p_, defaults.get(p_))
             if v is None:
                 return None
@@ -759,6 +758,19 @@ class _FuncEval:
                                     tuple(self.try_stack), True))  # keeps the call-graph edge; the body is analysed in place
         return out
 
+    def _captures(self, f: FuncInfo, locals_: set) -> bool:
+        """Would a name the helper reads from its module (not one of its locals) be captured by a local of the caller after the
+        helper's statements are moved into the caller?"""
+        if self.f is None:
+            return True
+        free = {n.id for n in ast.walk(f.node) if isinstance(n, ast.Name) and isinstance(n.ctx, ast.Load) and n.id not in locals_}
+        mine = set(self.f.params()) | set(_assigned_names(self.f))
+        g = self.f.parent
+        while g is not None:  # enclosing functions' locals are visible to a nested caller too
+            mine |= set(g.params()) | set(_assigned_names(g))
+            g = g.parent
+        return bool(free & mine)
+
     def _bind_and_rename(self, f: FuncInfo, call: ast.Call, recv_expr, body: list, st: State, finish) -> Optional[list]:
         """Statements `p' = arg` for every parameter of f followed by a renamed-apart copy of `body`."""
         import copy
@@ -768,6 +780,8 @@ class _FuncEval:
         for n in ast.walk(f.node):
             if isinstance(n, ast.Name) and isinstance(n.ctx, (ast.Store, ast.Del)):
                 locals_.add(n.id)
+        if self._captures(f, locals_):
+            return None
         self.ev._expand_counter = getattr(self.ev, "_expand_counter", 0) + 1
         suffix = f"__{f.name.strip('_')}{self.ev._expand_counter}"
 
@@ -800,7 +814,11 @@ class _FuncEval:
             if d is not None:
                 defaults[p_.arg] = d
         out: list = []
-        for p_ in params:
+        # bindings in Python's evaluation order: receiver, positional arguments, keyword arguments as written, then defaults
+        order = list(given) + [p_ for p_ in params if p_ not in given]
+        if set(order) != set(params):
+            return None
+        for p_ in order:
             v = given.get(p_, defaults.get(p_))
             if v is None:
                 return None
@@ -899,6 +917,8 @@ class _FuncEval:
         for n in ast.walk(f.node):
             if isinstance(n, ast.Name) and isinstance(n.ctx, (ast.Store, ast.Del)):
                 locals_.add(n.id)
+        if self._captures(f, locals_):
+            return None
         self.ev._expand_counter = getattr(self.ev, "_expand_counter", 0) + 1
         suffix = f"__{f.name.strip('_')}{self.ev._expand_counter}"
 
@@ -931,7 +951,7 @@ class _FuncEval:
             if d is not None:
                 defaults[p_.arg] = d
         out: list = []
-        for p_ in params:
+        for p_ in list(given) + [q_ for q_ in params if q_ not in given]:  # Python's evaluation order of the arguments
             v = given.get(p_, defaults.get(p_))
             if v is None:
                 return None
